@@ -216,6 +216,7 @@ class BCRun(object):
         self.wfail = False
         self.timers = []
         self.hooks = {}  # serial -> action words to run (re-entrantly) when that Deferred fires
+        self.rx = []  # (connection id, bytes) for every chunk actually handed to a connection's transport, in order
         self.close_called = False
         self.sync = "none"
         self.world.net.log = _FwdList(self._net_event)
@@ -433,6 +434,7 @@ class BCRun(object):
             if self.cur is None or self.cur.ct.disconnecting:
                 self.log.append("badOp")
             else:
+                self.rx.append((self.cur.cid, data))
                 try:
                     with time_limit():
                         self.cur.ct.bufferReceived(data)
